@@ -98,6 +98,25 @@ CHECKS["C09"] = dict(
     note="Trusted: pl-shim lock model; the windows inside create_snapshot are delimited by its lock acquisitions (index.read(), manifest_lock).",
 )
 
+CHECKS["C10"] = dict(
+    engine="srvmc", category="model_checking", design_ref="DESIGN.md 3.10",
+    technique="exhaustive enumeration of RPC sequences by two tenants on the real in-process gRPC handlers (kyrodb_server.rs compiled as a module with an appended driver), non-interference decided by a projection differential",
+    text="All 46^3 sequences over 23 RPC forms x 2 tenants (Insert incl. spoofed reserved keys and namespaces, BulkInsert, BulkLoadHnsw, Query, BulkQuery, Search with hostile filters naming the other tenant / NOT / OR / legacy filters, BulkSearch, UpdateMetadata incl. replace-with-spoof, Delete, BatchDelete by ids and by match-everything / other-tenant filters, FlushHotTier) with colliding local ids and identical vectors are executed on a fresh server; for each tenant every response must be identical to the response in the run where the other tenant's requests are deleted (found flags, ids, vectors, metadata, counts, total_found, deleted counts), no response may carry a reserved key or a global id, per-tenant /usage must be unaffected, scope=all is refused to non-admins and a request without tenant context is refused.",
+    note="Trusted: the driver attaches the TenantContext the API-key interceptor of main() would attach; latency / execution path / flush count are not compared. Known finding: Search/BulkSearch post-filter tenants after the global top-k.",
+)
+CHECKS["C14"] = dict(
+    engine="srvmc", category="model_checking", design_ref="DESIGN.md 3.14",
+    technique="exhaustive RPC sequences near the quota limit on the real handlers with the private counter read through the appended child module, plus preemption-bounded exhaustive schedules of concurrent RPC pairs under ksched",
+    text="Sequential: all 16^3 (quick) / 16^4 (thorough) sequences of one tenant with max_vectors=2 over Insert new/duplicate/NaN/wrong-dimension, Delete present/absent, BatchDelete with duplicates and by filter, BulkInsert with a rejected item and across the limit, BulkLoadHnsw with an in-batch duplicate and over the limit, UpdateMetadata, FlushHotTier and Restart (persistent engine + start-up recount); after every step counter == live documents of the tenant <= limit and a valid new-id Insert is refused only at the limit. Concurrent: 25 programs of 2-3 RPCs on the same id from three setups, every schedule with <= 1 / 2 preemptions; after join counter == live <= limit.",
+    note="Trusted: Restart transcribes main()'s recount; unary handlers run with now_or_never under the scheduler.",
+)
+CHECKS["C15"] = dict(
+    engine="srvmc", category="exploration", design_ref="DESIGN.md 3.15",
+    technique="exhaustive boundary-value grid per RPC field, singly and in all streams of length <= 3, on the real handlers of a persistent server and as raw frames through the tower stack (panic containment layer + generated server)",
+    text="Per RPC the cross product of per-field boundary lists (vector classes, id classes, k, ef, filter forms incl. 200/201-deep NOT and 10^4-value IN, namespace, metadata incl. reserved-key spoof, batch sizes 0/1/10000/10001) and every BulkInsert / BulkLoadHnsw stream of length <= 3 over nine item classes; an answer must come back within the horizon, a refused request leaves the canonical census unchanged, an accepted one is stored exactly as given, no non-finite vector is ever stored on any write path, a following valid insert succeeds, and the census after restart equals the live one. Every single request plus truncated / mis-sized / corrupted frames also go through the tower stack and must produce a grpc-status.",
+    note="Trusted: in-process driver (auth on, one tenant), Restart = TieredEngine::recover. Grid, not all inputs.",
+)
+
 # properties not claimed (yet): id -> reason
 NOT_APPLICABLE = {}
 
